@@ -73,6 +73,9 @@ type Shape struct {
 	memo map[string]reflect.Type
 	// Plain restricts to the shapes bindnode itself would infer (used as a control group).
 	Plain bool
+	// WideScalars keeps integers in int/int64 and floats in float64, so that every value of the schema type
+	// fits the Go type (C08/C09 use the shapes without a Go-side notion of conformance).
+	WideScalars bool
 }
 
 func NewShape(ts *rs.TypeSystem, r *fw.RNG) *Shape {
@@ -96,9 +99,12 @@ func (s *Shape) GoType(t *rs.Type) reflect.Type {
 		if s.Plain {
 			return reflect.TypeOf(int(0))
 		}
+		if s.WideScalars {
+			return kindType([]reflect.Kind{reflect.Int, reflect.Int64}[s.R.Intn(2)])
+		}
 		return kindType(intKinds[s.R.Intn(len(intKinds))])
 	case "float":
-		if !s.Plain && s.R.Chance(1, 3) {
+		if !s.Plain && !s.WideScalars && s.R.Chance(1, 3) {
 			return reflect.TypeOf(float32(0))
 		}
 		return reflect.TypeOf(float64(0))
@@ -121,7 +127,7 @@ func (s *Shape) GoType(t *rs.Type) reflect.Type {
 	switch t.Kind {
 	case "enum":
 		g = reflect.TypeOf("")
-		if t.EnumRepr == "int" && !s.Plain && s.R.Bool() {
+		if t.EnumRepr == "int" && !s.Plain && !s.WideScalars && s.R.Bool() {
 			g = kindType([]reflect.Kind{reflect.Int, reflect.Int8, reflect.Int32, reflect.Int64, reflect.Uint8, reflect.Uint16, reflect.Uint64}[s.R.Intn(7)])
 		}
 	case "list":
